@@ -708,6 +708,36 @@ fn last_receiver_drop_releases_senders() {
     assert!(s.is_disconnected());
 }
 
+/// a timed send whose deadline expires just as the last receiver goes away: the sender learns of the termination on
+/// its timeout path and returns at once; whatever the terminating thread did to the sender's waiter must be ordered
+/// before that return
+fn timeout_vs_last_receiver_drop() {
+    for (round, us) in [30u64, 60, 90, 120, 180, 240, 360].iter().enumerate() {
+        let (s, r) = kanal::bounded::<Msg>(0);
+        let us = *us;
+        let t = thread::spawn(move || {
+            let _ = s.send_timeout(Msg::new(round as u64), Duration::from_micros(us));
+        });
+        for _ in 0..(round % 3) {
+            thread::yield_now();
+        }
+        drop(r);
+        t.join().unwrap();
+    }
+    for (round, us) in [30u64, 60, 90, 120, 180, 240, 360].iter().enumerate() {
+        let (s, r) = kanal::bounded::<Msg>(0);
+        let us = *us;
+        let t = thread::spawn(move || {
+            let _ = r.recv_timeout(Duration::from_micros(us));
+        });
+        for _ in 0..(round % 3) {
+            thread::yield_now();
+        }
+        drop(s);
+        t.join().unwrap();
+    }
+}
+
 pub const SCENARIOS: &[(&str, fn())] = &[
     ("sync_rendezvous", sync_rendezvous),
     ("sync_mpsc_cap1", sync_mpsc_cap1),
@@ -735,6 +765,7 @@ pub const SCENARIOS: &[(&str, fn())] = &[
     ("async_mpmc_cap1", async_mpmc_cap1),
     ("unbounded_burst", unbounded_burst),
     ("last_receiver_drop_releases_senders", last_receiver_drop_releases_senders),
+    ("timeout_vs_last_receiver_drop", timeout_vs_last_receiver_drop),
 ];
 
 fn main() {
